@@ -842,6 +842,26 @@ func (sc *specCtx) call(n *SCall) SV {
 			return SV{T: fmt.Sprintf("(srune %s)", sc.mat(v)), Ty: types.Typ[types.String]}
 		}
 		return v
+	case "newerThan":
+		// newerThan(p, n): pointer p refers to storage allocated when the allocation counter was >= n
+		return SV{T: fmt.Sprintf("(>= (rootid %s) %s)", sc.mat(arg(0)), sc.mat(arg(1))), Ty: boolT}
+	case "extvar":
+		// extvar("pkg.Name"): current value of a package-level variable of an imported package (e.g. io.EOF)
+		name := n.Args[0].(*SStr).V
+		i := strings.LastIndex(name, ".")
+		if i < 0 {
+			return sc.fail("extvar: expected pkg.Name")
+		}
+		for _, pk := range e.m.prog.AllPackages() {
+			if pk.Pkg.Path() == name[:i] || pk.Pkg.Name() == name[:i] {
+				if g, ok := pk.Members[name[i+1:]].(*ssa.Global); ok {
+					et := g.Type().(*types.Pointer).Elem()
+					a := fmt.Sprintf("(Glob %d)", 100000+e.m.tid(g.Type()))
+					return SV{T: e.loadAt(sc.cur(), a, et), Ty: et}
+				}
+			}
+		}
+		return sc.fail("extvar: unknown variable %s", name)
 	case "fn":
 		// fn("name"): the function value of a package-level function
 		name := n.Args[0].(*SStr).V
